@@ -33,6 +33,9 @@ type clauseSpec struct {
 	Returns bool         `json:"returns_form"`
 	Dups    uint         `json:"repeat_mask"` // bit k set: element k of the sequence repeats the value of element k-1
 	Split   int          `json:"returns_then_andreturn_from,omitempty"` // Returns form: elements from this index on are appended with AndReturn
+	// BadAfter > 0 (targets with two plain results, Return+AndReturn form): after that many elements an ill-formed row (right first
+	// value, second value of another size) is offered with AndReturn; it is refused and must leave the sequence as it was
+	BadAfter int `json:"refused_row_after,omitempty"`
 }
 
 type callSpec struct {
@@ -221,6 +224,12 @@ func (t *target) configure(b *mocker.Builder, c *caseSpec) (w *mocker.When) {
 		} else {
 			w = w.Return(t.resultArgs(ci+1, 0)...)
 			for k := 1; k < cl.Seq; k++ {
+				if cl.BadAfter == k && t.name == "f8" {
+					first := t.resultArgs(ci+1, vidx(cl.Dups, k))[0]
+					if pv := guard(func() { w.AndReturn(first, "a value of another size") }); pv == nil {
+						panic("an ill-formed result row (string for an int result) was accepted by AndReturn")
+					}
+				}
 				w = w.AndReturn(t.resultArgs(ci+1, vidx(cl.Dups, k))...)
 			}
 		}
@@ -407,6 +416,13 @@ func genExpr(rt *rapid.T, t *target, pos int, allowIn bool) exprSpec {
 func genCase(maxSeq, minCalls, maxCalls int) func(rt *rapid.T) interface{} {
 	return func(rt *rapid.T) interface{} {
 		c := &caseSpec{Target: rapid.IntRange(0, len(targets)-1).Draw(rt, "target")}
+		if maxSeq > 1 && rapid.IntRange(0, 7).Draw(rt, "two-results?") == 0 {
+			for i, tt := range targets {
+				if tt.name == "f8" {
+					c.Target = i
+				}
+			}
+		}
 		t := targets[c.Target]
 		c.TargetName = t.name
 		c.HasDefault = rapid.IntRange(0, 3).Draw(rt, "default") != 0
@@ -440,6 +456,9 @@ func genCase(maxSeq, minCalls, maxCalls int) func(rt *rapid.T) interface{} {
 			cl := clauseSpec{Kind: "when", Seq: rapid.IntRange(1, maxSeq).Draw(rt, "seq"), Returns: rapid.Bool().Draw(rt, "returns")}
 			if maxSeq > 1 && rapid.IntRange(0, 2).Draw(rt, "dups") == 0 {
 				cl.Dups = uint(rapid.IntRange(0, 255).Draw(rt, "mask")) &^ 1
+			}
+			if !cl.Returns && cl.Seq > 1 && t.name == "f8" && rapid.Bool().Draw(rt, "bad-row?") {
+				cl.BadAfter = rapid.IntRange(1, cl.Seq-1).Draw(rt, "bad-after")
 			}
 			if cl.Returns && cl.Seq > 1 && rapid.IntRange(0, 2).Draw(rt, "split?") == 0 {
 				cl.Split = rapid.IntRange(1, cl.Seq-1).Draw(rt, "split")
